@@ -70,19 +70,40 @@ Theorem C15_del_fails_iff_absent : forall s k v, store_ok s ->
 Proof. exact del_refines. Qed.
 Print Assumptions C15_del_fails_iff_absent.
 
-(* the property over all histories of Add / Del / batch / backup+restore from the empty store:
-   same map, same failures, reads yield precisely the values present *)
+(* the property over all histories of Add / Del / batch / reopen / backup (any number, into one
+   backup directory) / restore (of the latest backup) / one-shot backup+restore from the empty
+   store: same map, same latest snapshot, same failures (a restore without any backup is the
+   only other error), reads yield precisely the values present *)
 Theorem C15_refines_map_of_lists : forall sort, sort_ok sort -> forall ops, Forall op_ok ops ->
-  let r := model_run sort empty_store ops in
-  let sp := spec_run sort m_empty ops in
-  store_ok (fst r) /\
-  smap_eq (abs (fst r)) (fst sp) /\
+  let r := model_brun sort (empty_store, None) ops in
+  let sp := spec_brun sort (m_empty, None) ops in
+  store_ok (fst (fst r)) /\
+  smap_eq (abs (fst (fst r))) (fst (fst sp)) /\
+  (match snd (fst r), spec_restored (fst sp) with
+   | Some b, Some bm => store_ok b /\ smap_eq (abs b) bm
+   | None, None => True
+   | _, _ => False
+   end) /\
   map failed (snd r) = snd sp /\
-  Forall (fun e => e = 0 \/ e = E_NXKEY \/ e = E_NXVAL) (snd r) /\
-  (forall k, rdb_for_each (fst r) k = (m_for_each (fst sp) k, 0) /\
-             rdb_find (fst r) k = match m_find (fst sp) k with Some v => Ok v | None => Err E_EOF end).
-Proof. exact refines_map_of_lists. Qed.
+  Forall (fun e => e = 0 \/ e = E_NXKEY \/ e = E_NXVAL \/ e = E_OTHER) (snd r) /\
+  (forall k, rdb_for_each (fst (fst r)) k = (m_for_each (fst (fst sp)) k, 0) /\
+             rdb_find (fst (fst r)) k = match m_find (fst (fst sp)) k with Some v => Ok v | None => Err E_EOF end).
+Proof. exact refines_map_of_lists_b. Qed.
 Print Assumptions C15_refines_map_of_lists.
+
+(* in the specification a restore yields the map as of the LATEST backup, whatever happened since
+   (only OBackup changes the snapshot), and with cont the history goes on from that map.  In the
+   model the same holds by definition (C15_refines_map_of_lists keeps the two snapshots related):
+   that the backup engine really restores the latest of several backups in one directory is the
+   differential part - every restored copy is read completely and compared with that map *)
+Theorem C15_backup_restore_yields_latest_backup : forall ord ops m0 b0 cont,
+  Forall (fun o => o <> OBackup) ops ->
+  let m := fst (fst (spec_bstep ord (m0, b0) OBackup)) in
+  let st := fst (spec_brun ord (m0, b0) (OBackup :: ops)) in
+  m = m0 /\ spec_restored st = Some m0 /\
+  spec_bstep ord st (ORestore cont) = ((if cont then m0 else fst st, Some m0), false).
+Proof. exact restore_yields_latest_backup. Qed.
+Print Assumptions C15_backup_restore_yields_latest_backup.
 
 (* a batch = all its additions then all its deletions, for every sorted permutation and any
    duplication of keys: exactly so with the additions in the order the sort left them (m1);
